@@ -1,6 +1,7 @@
 (* C02 -- Requests are served only from the board's configured image, partition, IP. *)
 From Coq Require Import List NArith ZArith Bool String.
 From NV Require Import Lib.Res Lib.PyInt Gen.Boot Boot.Model Boot.Proofs.
+From NV Require FatVol.Model FatVol.Spec FatVol.ProofsInv FatVol.ProofsWalk FatVol.ProofsDots.
 Import ListNotations.
 Open Scope N_scope.
 
@@ -44,6 +45,39 @@ Theorem C02_no_ip_served : forall boards client p0 rest b,
   boot_resolve boards client (p0 :: rest) = Served (b_image b) (b_partition b) rest.
 Proof. exact no_ip_served. Qed.
 Print Assumptions C02_no_ip_served.
+
+(* Inside the configured volume the remaining components are resolved by FatPath, which does not
+   normalise: "." and ".." are looked up as the dot entries stored in each sub-directory (the root
+   holds none).  On a consistent volume (VolInv: dot entries right, directory graph a tree) that walk is
+   the stack walk over the volume's own tree -- ".." pops, "." stays, at the root neither exists -- so
+   whatever the request spells, what is served is a node of the tree of THAT volume. *)
+Theorem C02_volume_closed : forall upper V s parts r,
+  FatVol.ProofsInv.VolInv upper V s -> FatVol.ProofsWalk.tilde_free upper parts ->
+  FatVol.Model.resolved upper s parts = Ok r -> r <> FatVol.Model.RNone ->
+  FatVol.Spec.reach (FatVol.Spec.abs_tree s) (FatVol.ProofsWalk.cur_node s r).
+Proof. exact FatVol.ProofsDots.resolved_confined. Qed.
+Print Assumptions C02_volume_closed.
+
+Theorem C02_path_walk_is_tree_walk : forall upper V s parts,
+  FatVol.ProofsInv.VolInv upper V s -> FatVol.ProofsWalk.tilde_free upper parts ->
+  match FatVol.Model.resolved upper s parts with
+  | Err x => x = NotADirectory /\ FatVol.Spec.twalkd upper [] (FatVol.Spec.abs_tree s) parts = Err NotADirectory
+  | Ok FatVol.Model.RNone => FatVol.Spec.twalkd upper [] (FatVol.Spec.abs_tree s) parts = Ok None
+  | Ok r => FatVol.Spec.twalkd upper [] (FatVol.Spec.abs_tree s) parts = Ok (Some (FatVol.ProofsWalk.cur_node s r))
+  end.
+Proof. exact FatVol.ProofsDots.resolved_refines. Qed.
+Print Assumptions C02_path_walk_is_tree_walk.
+
+(* ".." from the root leads nowhere: the root directory holds no dot entries (unless an entry is
+   literally called ".." -- which no creating call stores, C11_dot_names_rejected) *)
+Theorem C02_dotdot_at_root_is_a_plain_lookup : forall upper ch h r,
+  FatVol.Spec.twalkd upper [] (FatVol.Spec.Dir ch) (h :: r) =
+  match FatVol.Spec.tfind upper (upper h) ch with
+  | None => Ok None
+  | Some n => FatVol.Spec.twalkd upper [FatVol.Spec.Dir ch] n r
+  end.
+Proof. reflexivity. Qed.
+Print Assumptions C02_dotdot_at_root_is_a_plain_lookup.
 
 Example C02_nonvacuous :
   let bs := [{| b_serial := 4660; b_image := 1; b_partition := 1; b_ip := None |};
